@@ -216,7 +216,7 @@ func writeOnce(s *astisub.Subtitles, f string) (string, string, string) {
 		b, _ := ioutil.ReadFile(path)
 		return dig(b), res, msg
 	}
-	res, msg := run.Guard(20*time.Second, func() { err = writeDoc(strings.TrimSuffix(f, "+dates"), s, &buf) })
+	res, msg := run.Guard(20*time.Second, func() { err = writeDoc(strings.TrimSuffix(strings.TrimSuffix(f, "+dates"), "+zerodates"), s, &buf) })
 	if res == "ok" && err != nil {
 		res, msg = "err", err.Error()
 	}
@@ -342,6 +342,16 @@ func cmdWriters(args []string) error {
 			s3.Metadata = &astisub.Metadata{STLCreationDate: &cd, STLRevisionDate: &rd}
 			astisub.Now = func() time.Time { return fixed.Add(1000 * time.Hour) }
 			emit(list, "stl+dates", "clock-default", s3, project.Digest(s3))
+			astisub.Now = func() time.Time { return fixed }
+			// supplied dates are the caller's, whatever their value: the zero instant, supplied, is a date like any
+			// other, and the bytes do not follow the clock (register "stl+zerodates")
+			for _, now := range []time.Time{fixed, fixed.Add(1000 * time.Hour)} {
+				s5 := buildW(c, r)
+				s5.Metadata = &astisub.Metadata{STLCreationDate: &time.Time{}, STLRevisionDate: &time.Time{}}
+				at := now
+				astisub.Now = func() time.Time { return at }
+				emit(list, "stl+zerodates", "clock-zero-date", s5, project.Digest(s5))
+			}
 			astisub.Now = func() time.Time { return fixed }
 		}
 		if ci%4 == 0 {
